@@ -36,6 +36,7 @@ import LouModel.Hyph
 import LouProofs.Lemmas.Hyph
 import LouProofs.Lemmas.HyphWalk
 import LouProofs.Lemmas.HyphCompile
+import LouProofs.Lemmas.HyphWrap
 
 namespace Lou.C17
 open Lou.Hyph List
@@ -107,7 +108,7 @@ theorem hyph_state_invariant (pats : List Pat) (hne : pats ≠ []) (wf : WFPats 
   have ok := compileDict_ok pats hne fits
   have init : WInv pats (compileDict pats) (keyFn (compileC pats)) n ([] ++ u) []
       ⟨List.replicate n 0, 0, 0, none⟩ := by
-    refine ⟨rfl, ok.size_pos, ?_, by simp, ?_⟩
+    refine ⟨rfl, ok.size_pos, ?_, by simp, ?_, by simp [ok.key0]⟩
     · simp only; rw [ok.key0, lssD_nil]
     · intro q hq
       simp [specUpTo, List.getD_eq_getElem?_getD, hq]
@@ -115,7 +116,238 @@ theorem hyph_state_invariant (pats : List Pat) (hne : pats ≠ []) (wf : WFPats 
   simp only [List.nil_append, List.length_nil] at fin
   refine ⟨fin.st, ?_⟩
   obtain ⟨t, ht⟩ := ls_exists (isPatPrefix_nil hne) u
-  rw [fin.key]; simp [lssD, ht]
+  rw [fin.kst]; simp [lssD, ht]
+
+/-- termination of the fallback loop, amortised: over a whole word of `n` letters the inner
+    `while (1)` of hyphenateWord runs at most `2·(n+2)` times (every fallback strictly shortens
+    the prefix the state stands for, every letter lengthens it by at most one); in particular the
+    fuel of the model never runs out (`fault = none` in `hyph_refines_spec`).  The count is the
+    one hook H2 (site 6) reports for the implementation. -/
+theorem hyph_walk_bound (pats : List Pat) (wf : WFPats pats) (fits : FitsStates pats)
+    (lower : Nat → Nat) (w : List Nat) :
+    (hyphenateWalk (compileDict pats) lower w).ticks ≤ 2 * (w.length + 2) := by
+  by_cases hne : pats = []
+  · subst hne
+    rw [compileDict_nil]
+    -- the empty dictionary: two iterations per character
+    have h : ∀ (rest : List Nat) (i : Nat) (x : Walk), x.state = 0 →
+        (walkFrom #[{}] w.length rest i x).ticks = x.ticks + 2 * rest.length := by
+      intro rest
+      induction rest with
+      | nil => intro i x _; rfl
+      | cons ch rest ih =>
+        intro i x hs
+        have hm : max (i + 3) ((#[({} : HState)] : Dict).size + 2) = (max (i + 3) 3 - 2) + 2 := by simp
+        have h1 : (walkStep #[{}] w.length x i ch).state = 0 ∧ (walkStep #[{}] w.length x i ch).ticks = x.ticks + 2 := by
+          simp only [walkStep, hs]
+          rw [hm]
+          simp [seek, DEFAULTSTATE]
+        simp only [walkFrom]
+        rw [ih _ _ h1.1, h1.2]
+        simp only [length_cons]; omega
+    have := h (prepWord lower w) 0 ⟨List.replicate w.length 0, 0, 0, none⟩ rfl
+    unfold hyphenateWalk
+    rw [this]
+    simp [prepWord]
+  · have ok := compileDict_ok pats hne fits
+    have init : WInv pats (compileDict pats) (keyFn (compileC pats)) w.length ([] ++ prepWord lower w) []
+        ⟨List.replicate w.length 0, 0, 0, none⟩ := by
+      refine ⟨rfl, ok.size_pos, ?_, by simp, ?_, by simp [ok.key0]⟩
+      · simp only; rw [ok.key0, lssD_nil]
+      · intro q hq
+        simp [specUpTo, List.getD_eq_getElem?_getD, hq]
+    have fin := walkFrom_inv ok wf w.length (prepWord lower w) [] _ (by simp [prepWord]) init
+    simp only [List.nil_append, List.length_nil] at fin
+    have := fin.tk
+    unfold hyphenateWalk
+    simp [prepWord] at this ⊢
+    omega
+
+/-! ### the wrapper -/
+
+theorem textHyphens_fmt (d : Dict) (cl : Classes) (text init : List Nat)
+    (hinit : init.length = text.length + 1) (hl : text.length + 3 ≤ MAXSTRING) :
+    ∃ b, textHyphens d cl text init = some b ∧ Fmt text.length b := by
+  unfold textHyphens
+  obtain ⟨p1, p2, p3⟩ := writeRange_in (List.replicate text.length 48) ⟨init, false⟩ 0 (by simp [hinit])
+  obtain ⟨q1, q2, q3⟩ := write_in ((⟨init, false⟩ : TBuf).writeRange 0 (List.replicate text.length 48)) text.length 0
+    (by rw [p2]; simp [hinit])
+  apply wordLoop_fmt d cl text hl (text.length + 1) 0 _ (Nat.zero_le _)
+  refine ⟨by rw [q1, p1], by rw [q2, p2]; exact hinit, ?_, ?_⟩
+  · intro k hk
+    rw [q3 k, p3 k]
+    have c1 : ¬ k = text.length := by omega
+    have c2 : 0 ≤ k ∧ k < 0 + (List.replicate text.length 48).length := by simp; omega
+    rw [if_neg c1, if_pos c2]
+    left; simp [List.getD_eq_getElem?_getD, hk]
+  · rw [q3]; simp
+
+/-- lou_hyphenate in text mode, for ANY automaton in the table and any character classes:
+    it returns 0 exactly when no dictionary is loaded or `inlen ≥ 100`, and then leaves the
+    array alone; otherwise it returns 1, writes nothing beyond index `inlen`, and leaves
+    exactly `inlen` characters from {'0','1','2'} followed by a NUL. -/
+theorem hyphenate_format (dict : Option Dict) (cl : Classes) (inbuf init : List Nat)
+    (hinit : init.length = inbuf.length + 1) :
+    ((louHyphenateText dict cl inbuf init).1 = 0 ↔ (dict = none ∨ inbuf.length ≥ HYPHSTRING)) ∧
+    ((louHyphenateText dict cl inbuf init).1 = 0 → (louHyphenateText dict cl inbuf init).2 = ⟨init, false⟩) ∧
+    ((louHyphenateText dict cl inbuf init).1 ≠ 0 →
+      (louHyphenateText dict cl inbuf init).1 = 1 ∧ Fmt inbuf.length (louHyphenateText dict cl inbuf init).2) := by
+  cases dict with
+  | none => simp [louHyphenateText]
+  | some d =>
+    by_cases c : inbuf.length ≥ HYPHSTRING
+    · simp [louHyphenateText, c]
+    · have hl : inbuf.length + 3 ≤ MAXSTRING := by simp only [HYPHSTRING, MAXSTRING] at *; omega
+      obtain ⟨b, hb, f⟩ := textHyphens_fmt d cl inbuf init hinit hl
+      simp only [louHyphenateText, if_neg c, hb]
+      refine ⟨?_, ?_, ?_⟩
+      · constructor
+        · intro h; cases h
+        · rintro (h | h)
+          · cases h
+          · exact absurd h c
+      · intro h; cases h
+      · intro _; exact ⟨trivial, f⟩
+
+/-- text mode writes only `hyphens[0..inlen]` -/
+theorem hyphenate_writes (dict : Option Dict) (cl : Classes) (inbuf init : List Nat)
+    (hinit : init.length = inbuf.length + 1) :
+    (louHyphenateText dict cl inbuf init).2.oob = false ∧
+    (louHyphenateText dict cl inbuf init).2.data.length = inbuf.length + 1 := by
+  obtain ⟨_, h0, h1⟩ := hyphenate_format dict cl inbuf init hinit
+  by_cases c : (louHyphenateText dict cl inbuf init).1 = 0
+  · rw [h0 c]; exact ⟨rfl, hinit⟩
+  · exact ⟨(h1 c).2.oob, (h1 c).2.len⟩
+
+/-! #### braille mode: the mapping through inputPos -/
+
+theorem mapLoop_writes (inlen : Nat) : ∀ (L : List (Nat × Int)) (prev : Int) (b : TBuf),
+    b.oob = false → b.data.length = inlen + 1 →
+    (mapLoop inlen L prev b).oob = false ∧ (mapLoop inlen L prev b).data.length = inlen + 1 := by
+  intro L
+  induction L with
+  | nil => intro prev b h1 h2; exact ⟨h1, h2⟩
+  | cons e L ih =>
+    intro prev b h1 h2
+    obtain ⟨h, bp⟩ := e
+    simp only [mapLoop]
+    split
+    · exact ⟨h1, h2⟩
+    · rename_i c
+      split
+      · obtain ⟨w1, w2, _⟩ := write_in b bp.toNat h (by rw [h2]; omega)
+        exact ih bp _ (by rw [w1, h1]) (by rw [w2, h2])
+      · exact ih prev b h1 h2
+
+theorem mapLoop_fmt (inlen : Nat) : ∀ (L : List (Nat × Int)) (prev : Int) (b : TBuf),
+    (∀ e ∈ L, (e.1 = 48 ∨ e.1 = 49 ∨ e.1 = 50) ∧ e.2 < (inlen : Int)) → Fmt inlen b →
+    Fmt inlen (mapLoop inlen L prev b) := by
+  intro L
+  induction L with
+  | nil => intro prev b _ f; exact f
+  | cons e L ih =>
+    intro prev b hL f
+    obtain ⟨h, bp⟩ := e
+    have he := hL (h, bp) mem_cons_self
+    have hL' : ∀ e ∈ L, (e.1 = 48 ∨ e.1 = 49 ∨ e.1 = 50) ∧ e.2 < (inlen : Int) :=
+      fun e he => hL e (mem_cons_of_mem _ he)
+    simp only [mapLoop]
+    split
+    · exact f
+    · rename_i c
+      split
+      · obtain ⟨w1, w2, w3⟩ := write_in b bp.toNat h (by rw [f.len]; omega)
+        apply ih bp _ hL'
+        refine ⟨by rw [w1, f.oob], by rw [w2, f.len], ?_, ?_⟩
+        · intro k hk
+          rw [w3 k]
+          by_cases ck : k = bp.toNat
+          · rw [if_pos ck]; exact he.1
+          · rw [if_neg ck]; exact f.chars k hk
+        · rw [w3]
+          have : ¬ inlen = bp.toNat := by have := he.2; omega
+          rw [if_neg this]; exact f.nul
+      · exact ih prev b hL' f
+
+/-- in both modes nothing is written beyond index `inlen` -/
+theorem hyphenate_writes_braille (dict : Option Dict) (cl : Classes) (inlen : Nat)
+    (bt : Option (List Nat × List Int)) (init : List Nat) (hinit : init.length = inlen + 1) :
+    (louHyphenateBraille dict cl inlen bt init).2.oob = false ∧
+    (louHyphenateBraille dict cl inlen bt init).2.data.length = inlen + 1 := by
+  unfold louHyphenateBraille
+  cases dict with
+  | none => exact ⟨rfl, hinit⟩
+  | some d =>
+    simp only
+    split
+    · exact ⟨rfl, hinit⟩
+    · cases bt with
+      | none => exact ⟨rfl, hinit⟩
+      | some p =>
+        obtain ⟨text, ip⟩ := p
+        simp only
+        split
+        · exact ⟨rfl, hinit⟩
+        · obtain ⟨p1, p2, _⟩ := writeRange_in (List.replicate inlen 48) ⟨init, false⟩ 0 (by simp [hinit])
+          obtain ⟨q1, q2, _⟩ := write_in ((⟨init, false⟩ : TBuf).writeRange 0 (List.replicate inlen 48)) inlen 0
+            (by rw [p2]; simp [hinit])
+          exact mapLoop_writes inlen _ _ _ (by rw [q1, p1]) (by rw [q2, p2]; exact hinit)
+
+/-- braille mode, format clause — PARTIAL: needs what the back-translation guarantees (C07:
+    every `inputPos` entry is below `inlen`; `textLen ≤ 100` entries).  Without `inputPos < inlen`
+    the statement is false of the code: `braillePos > inlen` lets `braillePos == inlen` through,
+    which overwrites the terminating NUL (`braille_nul_overwritten`). -/
+theorem hyphenate_braille_format_partial (dict : Option Dict) (cl : Classes) (inlen : Nat)
+    (text : List Nat) (ip : List Int) (init : List Nat) (hinit : init.length = inlen + 1)
+    (htext : text.length ≤ HYPHSTRING) (hip : ip.length ≤ text.length) (hlt : ∀ p ∈ ip, p < (inlen : Int)) :
+    ((louHyphenateBraille dict cl inlen (some (text, ip)) init).1 = 0 ↔ (dict = none ∨ inlen ≥ HYPHSTRING)) ∧
+    ((louHyphenateBraille dict cl inlen (some (text, ip)) init).1 ≠ 0 →
+      (louHyphenateBraille dict cl inlen (some (text, ip)) init).1 = 1 ∧
+      Fmt inlen (louHyphenateBraille dict cl inlen (some (text, ip)) init).2) := by
+  cases dict with
+  | none => simp [louHyphenateBraille]
+  | some d =>
+    by_cases c : inlen ≥ HYPHSTRING
+    · simp [louHyphenateBraille, c]
+    · have hl : text.length + 3 ≤ MAXSTRING := by simp only [HYPHSTRING, MAXSTRING] at *; omega
+      obtain ⟨th, hth, fth⟩ := textHyphens_fmt d cl text (List.replicate (text.length + 1) 0) (by simp) hl
+      simp only [louHyphenateBraille, if_neg c, hth]
+      refine ⟨?_, ?_⟩
+      · constructor
+        · intro h; cases h
+        · rintro (h | h)
+          · cases h
+          · exact absurd h c
+      · intro _
+        refine ⟨trivial, ?_⟩
+        obtain ⟨p1, p2, p3⟩ := writeRange_in (List.replicate inlen 48) ⟨init, false⟩ 0 (by simp [hinit])
+        obtain ⟨q1, q2, q3⟩ := write_in ((⟨init, false⟩ : TBuf).writeRange 0 (List.replicate inlen 48)) inlen 0
+          (by rw [p2]; simp [hinit])
+        apply mapLoop_fmt
+        · intro e he
+          obtain ⟨j, hj, rfl⟩ := List.mem_iff_getElem.mp he
+          simp only [List.length_zip] at hj
+          simp only [List.getElem_zip]
+          refine ⟨?_, hlt _ (List.getElem_mem _)⟩
+          have hj' : j < text.length := by omega
+          have := fth.chars j hj'
+          have e : th.data.getD j 0 = th.data[j] := by
+            simp [List.getD_eq_getElem?_getD, List.getElem?_eq_getElem (by omega : j < th.data.length)]
+          rw [e] at this; exact this
+        · refine ⟨by rw [q1, p1], by rw [q2, p2]; exact hinit, ?_, ?_⟩
+          · intro k hk
+            rw [q3 k, p3 k]
+            have c1 : ¬ k = inlen := by omega
+            have c2 : 0 ≤ k ∧ k < 0 + (List.replicate inlen 48).length := by simp; omega
+            rw [if_neg c1, if_pos c2]
+            left; simp [List.getD_eq_getElem?_getD, hk]
+          · rw [q3]; simp
+
+/-- `inputPos[k] == inlen` passes the range test `braillePos > inlen || braillePos < 0` and the
+    NUL at `hyphens[inlen]` is replaced by a digit character -/
+theorem braille_nul_overwritten :
+    (louHyphenateBraille (some #[{}]) ⟨fun _ => true, id, fun _ => false⟩ 1 (some ([97], [1])) [117, 117]).2.data
+      = [48, 48] := by decide
 
 /-! ### the forced hypotheses: the unrestricted statement fails on these witnesses -/
 
